@@ -150,6 +150,122 @@ list: {
 	return items
 }
 
+// respell: the same query with a blank appended to every sub-query literal (Select("$.a") -> Select("$.a ")); other queries unchanged
+func respell(q string) string {
+	if !strings.Contains(q, `Select("`) {
+		return q
+	}
+	var sb strings.Builder
+	rest := q
+	for {
+		i := strings.Index(rest, `Select("`)
+		if i < 0 {
+			sb.WriteString(rest)
+			return sb.String()
+		}
+		j := strings.Index(rest[i+8:], `"`)
+		sb.WriteString(rest[:i+8+j])
+		sb.WriteString(" ")
+		rest = rest[i+8+j:]
+	}
+}
+
+type seekFailer struct{}
+
+func (seekFailer) Read(p []byte) (int, error)     { return 0, errInjected }
+func (seekFailer) Seek(int64, int) (int64, error) { return 0, errInjected }
+
+type raceStorm struct {
+	name  string
+	items []raceItem
+}
+
+// raceStorms: families of shared operations; the expected answers are computed here, one call at a time
+func raceStorms(r *rng) []raceStorm {
+	mk := func(name string, doc *TV, qs ...string) raceStorm {
+		st := raceStorm{name: name}
+		data := buildAny(doc)
+		for _, q := range qs {
+			op, err := mpath.ParseString(q)
+			if err != nil || op == nil {
+				continue
+			}
+			// the expected answer comes from a spelling of the query that differs in white space inside its string arguments' closing
+			// (` ")` for `")`): whatever the implementation remembers per sub-query or per query text is still cold when the storm starts
+			st.items = append(st.items, raceItem{kind: "eval", q: q, op: op, data: data, want: runCase(respell(q), data).Line()})
+		}
+		return st
+	}
+	tag := fmt.Sprint(r.Intn(1000000)) // fresh patterns and sub-queries in every run
+	var out []raceStorm
+	// one pattern per operation
+	strs := tvMap("str", [][2]any{{hx("s"), tvStr("aab-" + tag + "-ba")}, {hx("t"), tvStr("xyz")},
+		{hx("o"), tvMap("str", [][2]any{{hx("ab"), tvF64(1)}, {hx("ba"), tvF64(2)}, {hx("k" + tag), tvF64(3)}})}})
+	out = append(out, mk("patterns", strs,
+		`$.s.DoesMatchRegex("^a")`, `$.s.DoesMatchRegex("^b")`, `$.s.DoesMatchRegex("`+tag+`")`, `$.t.DoesMatchRegex("^a")`, `$.t.DoesMatchRegex("z$")`,
+		`$.s.ReplaceRegex("a+","<>")`, `$.s.ReplaceRegex("b+","<>")`, `$.s.ReplaceRegex("[0-9]+","#")`, `$.s.ReplaceRegex("`+tag+`","T")`,
+		`$.o.RemoveKeysByRegex("^a")`, `$.o.RemoveKeysByRegex("^b")`, `$.o.RemoveKeysByRegex("^k`+tag+`")`,
+		`$.s.ReplaceAll("a","b")`, `$.s.ReplaceAll("b","a")`, `$.s.Contains("`+tag+`")`, `$.s.Contains("q`+tag+`")`))
+	// one sub-query per operation, none of them seen before
+	var sel []string
+	for i := 0; i < 24; i++ {
+		sel = append(sel, fmt.Sprintf(`$.xs.Select("$.a.Add(%s%d)")`, tag, i), fmt.Sprintf(`$.xs[@.Select("$.a.Add(%d)").Greater(%s)].a`, i, tag))
+	}
+	out = append(out, mk("sub-queries", tvMap("str", [][2]any{{hx("xs"), tvSlice(1, tvMap("str", [][2]any{{hx("a"), tvF64(1)}}), tvMap("str", [][2]any{{hx("a"), tvF64(2)}}))}}), sel...))
+	// one shared operation, documents that differ in the number (all of them above MaxInt64, and small ones) and in its Go type
+	nums := raceStorm{name: "wide-numbers"}
+	for _, q := range []string{"$.u", "$.u.Add(0)", "$.us.Sum()", "$.us.Maximum()", "$.us[@.Greater(5)]", "$.u.Equal($.v)"} {
+		op, err := mpath.ParseString(q)
+		if err != nil || op == nil {
+			continue
+		}
+		it := raceItem{kind: "eval-variants", q: q, op: op}
+		for i := 0; i < 12; i++ {
+			big1 := fmt.Sprint(uint64(18446744073709551615) - uint64(i)*1000003)
+			big2 := fmt.Sprint(uint64(9223372036854775808) + uint64(i)*7)
+			var d *TV
+			switch i % 3 {
+			case 0:
+				d = tvMap("str", [][2]any{{hx("u"), tvInt("uint64", big1)}, {hx("v"), tvInt("uint64", big2)}, {hx("us"), tvSlice(0, tvInt("uint64", big1), tvInt("uint64", big2), tvInt("uint64", fmt.Sprint(i)))}})
+			case 1:
+				d = tvStruct([][3]any{{"U", 1, tvInt("uint", big2)}, {"V", 1, tvInt("uint64", big2)}, {"Us", 1, tvSlice(1, tvInt("uint64", big2), tvInt("int", fmt.Sprint(-i)), tvInt("uint", big1))}})
+			default:
+				d = tvMap("str", [][2]any{{hx("u"), tvInt("int64", fmt.Sprint(i*i))}, {hx("v"), tvF64(float64(i * i))}, {hx("us"), tvSlice(1, tvInt("uint8", fmt.Sprint(i)), tvInt("uint64", big1))}})
+			}
+			data := buildAny(d)
+			it.datas = append(it.datas, data)
+			it.wants = append(it.wants, runCase(q, data).Line())
+		}
+		nums.items = append(nums.items, it)
+	}
+	out = append(out, nums)
+	// one shared operation, documents that spell the key differently (and hold several spellings at once)
+	keys := raceStorm{name: "key-spellings"}
+	for _, q := range []string{"$.key", "$.Key.Add(1)", "$.o.key", "$.xs.key"} {
+		op, err := mpath.ParseString(q)
+		if err != nil || op == nil {
+			continue
+		}
+		it := raceItem{kind: "eval-variants", q: q, op: op}
+		sp := []string{"key", "KEY", "Key", "kEy", "KEy", "keY"}
+		for i := 0; i < 12; i++ {
+			var kv [][2]any
+			for j := 0; j <= i%3; j++ {
+				kv = append(kv, [2]any{hx(sp[(i+2*j)%len(sp)]), tvF64(float64(10*i + j))})
+			}
+			kv = append(kv, [2]any{hx("other"), tvF64(-1)})
+			o := tvMap([]string{"str", "named", "iface"}[i%3], kv)
+			d := tvMap("str", append(append([][2]any{}, kv...), [2]any{hx("o"), o}, [2]any{hx("xs"), tvSlice(1, o, o)}))
+			data := buildAny(d)
+			it.datas = append(it.datas, data)
+			it.wants = append(it.wants, runCase(q, data).Line())
+		}
+		keys.items = append(keys.items, it)
+	}
+	out = append(out, keys)
+	return out
+}
+
 func mpathUserString(op mpath.Operation) string {
 	type us interface{ UserString() string }
 	if u, ok := op.(us); ok {
@@ -212,6 +328,26 @@ func init() {
 						if lr.Intn(3) == 0 {
 							runtime.Gosched()
 						}
+						if k%12 == 5 {
+							// parses that end early (the reader cannot seek / fails at once / fails part-way) between the others:
+							// whatever they leave in the scanner pool is what the next parses get
+							var rd interface {
+								Read([]byte) (int, error)
+								Seek(int64, int) (int64, error)
+							}
+							switch lr.Intn(3) {
+							case 0:
+								rd = seekFailer{}
+							case 1:
+								rd = &chunkReader{data: []byte(it.q + " "), failAt: 0, chunks: func() int { return 3 }}
+							default:
+								rd = &chunkReader{data: []byte("$.a.b.c.Add(1).Equal(2)"), failAt: 1 + lr.Intn(20), chunks: func() int { return 2 }}
+							}
+							if op, err := mpath.ParseReadSeeker(rd); err == nil || op != nil {
+								localMism[gi] = append(localMism[gi], mism{"parse-failing-reader", it.q, "", "an error and no operation", fmt.Sprintf("op=%v err=%v", op != nil, err)})
+							}
+							localCalls[gi]++
+						}
 						var got string
 						switch it.kind {
 						case "parse":
@@ -266,6 +402,47 @@ func init() {
 				}
 			}
 			hist[fmt.Sprintf("round/%d-goroutines", g)] += g * perG
+		}
+		// storms: many goroutines in a tight loop over a handful of shared operations that differ in one respect only (the pattern,
+		// the sub-query, the number, the spelling of the key) - state kept between calls and shared between callers shows as a
+		// data race or as an answer that belongs to the neighbour's call
+		for _, fam := range raceStorms(r) {
+			iters := 1500
+			if tier == "thorough" {
+				iters = 12000
+			}
+			const g = 16
+			localMism := make([][]mism, g)
+			var wg sync.WaitGroup
+			start := make(chan struct{})
+			for gi := 0; gi < g; gi++ {
+				wg.Add(1)
+				go func(gi int) {
+					defer wg.Done()
+					<-start
+					n := len(fam.items)
+					for k := 0; k < iters; k++ {
+						it := fam.items[(gi+k*(1+gi%3))%n]
+						var got, want string
+						if len(it.datas) > 0 {
+							vi := (k + gi) % len(it.datas)
+							got, want = evalShared(it.op, it.datas[vi]), it.wants[vi]
+						} else {
+							got, want = evalShared(it.op, it.data), it.want
+						}
+						if got != want && len(localMism[gi]) < 5 {
+							localMism[gi] = append(localMism[gi], mism{"storm/" + fam.name, it.q, "", trunc(want, 300), trunc(got, 300)})
+						}
+					}
+				}(gi)
+			}
+			close(start)
+			wg.Wait()
+			for gi := 0; gi < g; gi++ {
+				mismatches = append(mismatches, localMism[gi]...)
+			}
+			calls += int64(g * iters)
+			hist["storm/"+fam.name] += g * iters
 		}
 		// the lazily validated items: every concurrent answer must equal the answer of the same call run alone afterwards
 		// (on a re-spelled schema, i.e. from a fresh cache entry)
